@@ -276,6 +276,15 @@ def long_inputs(full):
         out.append('-' + '9' * n)
         out.append('[' + '9' * n + ']')
         out.append('f(' + '9' * n + ')')
+        # the long numeral as the token the grammar rejects (error messages
+        # quote the offending token)
+        out.append('1 ' + '9' * n)
+        out.append('f(1 ' + '9' * n + ')')
+        out.append('$.a ' + '9' * n)
+        out.append('9' * n + ' ' + '8' * n)
+        out.append("'s' " + '9' * n + '.5')
+        out.append('9' * n + ' x')
+        out.append(') ' + '9' * n)
     for n in [100, 1000, 10000]:
         out.append('a' * n)
         out.append('_' + 'a' * n)
